@@ -32,6 +32,11 @@ def configs(tier, seed):
   for i, sp in enumerate(['False', 'false', 'FALSE', 'no', 'off', '0', 'False  ; not on this host', 'False # comment', 'disabled',
                           'none', 'f', '', 'No', 'Off', '00', 'False False']):
     cfgs.append(dict(name='spelling/%d' % i, mode='spelling', spelling=sp))
+  # layering of the sections: the running instance's own section wins over the program section, another instance's
+  # section does not count; wherever the effective value is "off" the safe unpickler must be in use
+  for i, (prog, inst, other) in enumerate([('True', 'False', None), ('True', 'no', None), ('yes', '0', 'True'), ('False', None, 'True'),
+                                           (None, 'False', 'True'), ('True', 'off', 'on')]):
+    cfgs.append(dict(name='layering/%d' % i, mode='spelling', spelling='layered', layers=[prog, inst, other]))
   nshard = 8 if tier == 'quick' else 16
   for s in range(nshard):
     cfgs.append(dict(name='sweep/%d' % s, mode='sweep', shard=s, nshard=nshard, stride=1))
@@ -197,8 +202,14 @@ def run_config(cfg, res):
   from vlib import boot
   if cfg['mode'] == 'spelling':
     try:
-      ns = boot.boot('carbon-cache', {'USE_INSECURE_UNPICKLER': cfg['spelling']}, instance='b',
-                     instance_conf={'USE_INSECURE_UNPICKLER': cfg['spelling']} if cfg['name'].endswith(('1', '3', '5', '7')) else None)
+      if cfg.get('layers'):
+        prog, inst, other = cfg['layers']
+        ns = boot.boot('carbon-cache', {'USE_INSECURE_UNPICKLER': prog} if prog is not None else {}, instance='b',
+                       instance_conf=({'USE_INSECURE_UNPICKLER': inst, 'LINE_RECEIVER_PORT': 2103} if inst is not None else {'LINE_RECEIVER_PORT': 2103}),
+                       extra_sections=[('cache:c', {'USE_INSECURE_UNPICKLER': other})] if other is not None else None)
+      else:
+        ns = boot.boot('carbon-cache', {'USE_INSECURE_UNPICKLER': cfg['spelling']}, instance='b',
+                       instance_conf={'USE_INSECURE_UNPICKLER': cfg['spelling']} if cfg['name'].endswith(('1', '3', '5', '7')) else None)
     except (Exception, SystemExit) as e:
       res.count('daemon_refused_to_start')
       res.case('spelling:' + cfg['spelling'], nontrivial=True)
